@@ -2413,9 +2413,10 @@ def closure_glyphs(self, s):
 def subset_glyphs(self, s):
     table = self.table.Baseline
     if table.Format in (1, 3):
+        # sorted: on a tie, most_common() below picks the first value inserted
         baselines = {
             glyph: table.BaselineValues.get(glyph, table.DefaultBaseline)
-            for glyph in s.glyphs
+            for glyph in sorted(s.glyphs)
         }
         if len(baselines) > 0:
             mostCommon, _cnt = Counter(baselines.values()).most_common(1)[0]
@@ -2596,8 +2597,10 @@ def subset_glyphs(self, s):
     if prop.Format == 0:
         return prop.DefaultProperties != 0
     elif prop.Format == 1:
+        # sorted: on a tie, most_common() below picks the first value inserted
         prop.Properties = {
-            g: prop.Properties.get(g, prop.DefaultProperties) for g in s.glyphs
+            g: prop.Properties.get(g, prop.DefaultProperties)
+            for g in sorted(s.glyphs)
         }
         mostCommon, _cnt = Counter(prop.Properties.values()).most_common(1)[0]
         prop.DefaultProperties = mostCommon
@@ -2699,9 +2702,11 @@ def subset_glyphs(self, s):
         del self.table
         return bool(layersV0)
 
+    # layersV0 was filled while iterating a set: have the records sorted by glyph id
     populateCOLRv0(
         self.table,
         {g: [(layer.name, layer.colorID) for layer in layersV0[g]] for g in layersV0},
+        glyphMap=s.reverseOrigGlyphMap,
     )
     del self.ColorLayers
 
